@@ -41,6 +41,10 @@ QUICK = [
     _c('reverse_transport_costs', 'slp_transport', dict(T=3, reverse=True), 1, 1),
     _c('scaled_storage_mid', 'scaled', dict(T=3, base='storage'), 1, 1),
     _c('multicommodity_take', 'multicommodity', dict(T=3, take=(0, 3)), 1, 2),
+    # variables that act in several steps and straddle the present/future boundary (orders, coarse intervals) are present-stage decisions
+    _c('orders_straddle_boundary', 'orderbook', dict(T=4, orders=((0, 3, 2.0), (1, 4, -1.5), (1, 2, 1.0), (2, 4, 1.0))), 2, 1),
+    _c('coarse_intervals_straddle_boundary', 'coarse', dict(T=4, kind='contract', ec=True), 1, 1),
+    _c('coarse_transport_straddles_boundary', 'coarse', dict(T=4, kind='transport', eff=0.5), 3, 2),
 ]
 THOROUGH = QUICK + [
     _c('contract_storage_T4_S2', 'contract_storage', dict(T=4, wacc=True), 2, 2),
@@ -61,7 +65,83 @@ def cases(tier, seed):
     out = [(cid, dict(kind='slp', shape=SHAPE_OF[cid], kw=dict(kw), boundary=b, S=S)) for cid, kw, b, S in lst]
     for cid, shape, kw, S in (('robust_contract_storage', 'contract_storage', dict(T=2), 2), ('robust_two_node', 'two_node', dict(T=2), 1)):
         out.append((cid, dict(kind='robust', shape=shape, kw=kw, S=S)))
+    # the cost samples that feed the robust target and make_slp (Portfolio.create_cost_samples, the assets' costs_only branches) are the
+    # cost vectors of the scenario problems -- for every asset class, also on grids whose step differs from the main time unit
+    for cid, shape, kw in COST_SAMPLES if tier == 'thorough' else COST_SAMPLES[:COST_QUICK]:
+        out.append(('cost_samples_' + cid, dict(kind='costs', shape=shape, kw=kw)))
     return out
+
+
+COST_SAMPLES = [
+    ('scaled_storage_day_grid', 'scaled', dict(T=3, base='storage', unit='h', freq='d')),
+    ('scaled_transport_quarter_hours', 'scaled', dict(T=3, base='transport', unit='h', freq='15min')),
+    ('contract_storage_wacc_day_unit', 'contract_storage', dict(T=3, freq='12h', unit='d', wacc=True)),
+    ('two_node_2n_storage', 'two_node', dict(T=2, two_node_storage=True, wacc=True, gridv='day_d_cet_dst')),
+    ('multicommodity_take', 'multicommodity', dict(T=3, take=(0, 3), gridv='quarter_min')),
+    ('plant_fuel', 'plant', dict(T=3, fuel=True, mr=2, gridv='month_d')),
+    ('chp', 'plant', dict(T=2, fuel=True, heat=True, ramp=True)),
+    ('coarse_contract', 'coarse', dict(T=4, kind='contract', ec=True)),
+    ('coarse_transport', 'coarse', dict(T=4, kind='transport', eff=0.5)),
+    ('periodic_contract', 'periodic', dict(T=4, kind='contract', ec=True)),
+    ('orderbook', 'orderbook', dict(T=3, wacc=True)),
+    ('structured', 'structured', dict(T=2)),
+    ('ext_transport', 'ext_transport', dict(T=3, gridv='day_h_useast_fall')),
+    ('caps_interval_data', 'caps_dict', dict(T=4, wacc=True)),
+    ('mixed_discount_rates', 'mixed_wacc', dict(T=3, freq='d', unit='d')),
+    ('windows', 'windows', dict(T=4)),
+    ('scaled_take_month_grid', 'scaled', dict(T=3, base='take', gridv='month_d')),
+    ('coarse_storage', 'coarse', dict(T=4, kind='storage', eff=0.75, ec=True)),
+    ('periodic_transport', 'periodic', dict(T=4, kind='transport', eff=0.5)),
+    ('structured_two_internal', 'structured', dict(T=2, two_internal=True)),
+]
+COST_QUICK = 16
+
+
+def run_costs(rec, seed, shape, kw):
+    def build(D):
+        sh = shapes.build_portfolio(D, shape, **kw)
+        smp = scenario_prices(D, sh.prices, sh.tg.T, 0, 1)[0]
+        cs = sh.portf.create_cost_samples([dict(smp)], sh.tg)
+        sh2 = shapes.build_portfolio(D, shape, **kw)
+        op = sh2.portf.setup_optim_problem(smp, sh2.tg)
+        return cs[0], op
+    res = lift.explore_build(build, level='A')
+    rec.paths = len(res)
+    validated = False
+    for pi, (path, D) in enumerate(res):
+        P = 'p%d' % pi
+        if path.exc is not None:
+            if common.is_rejection(path.exc):
+                rec.rejected_paths += 1
+                continue
+            common.crash_candidate(rec, P + '/crash', path, D, info=dict(kind='costs'))
+            continue
+        cs, op = path.result
+        base = list(D.pre) + path.pc + sym.atom_constraints()
+        if rec.vacuity(P, base) is None:
+            continue
+        n = len(op.c)
+        if len(cs) != n:
+            rec.obligations.append(dict(name=P + '/length', verdict='sat', secs=0, form='Q2'))
+            rec.candidates.append(dict(name=P + '/length', env=common.generic_point(base, D.names, seed) or {}, info=dict(kind='costs', ob='length'), form='struct'))
+            continue
+        rec.twin(P + '/cost_sample_is_cost_vector', base, z3.BoolVal(False))
+        goals = [('c[%d]' % i, zl(cs[i]) == zl(op.c[i]), dict(kind='costs', i=i)) for i in range(n)
+                 if not z3.simplify(zl(cs[i])).eq(z3.simplify(zl(op.c[i])))]
+        nm = P + '/cost_sample_is_cost_vector'
+        if not goals:
+            rec.obligations.append(dict(name=nm, verdict='unsat', secs=0, form='Q2'))
+            rec.distinct.add(nm)
+        else:
+            rec.prove_each(nm, base, goals, form='Q2')
+        if not validated:
+            env = common.generic_point(base, D.names, seed)
+            if env is not None:
+                for n_ in D.names:
+                    env.setdefault(n_, 0.0)
+                rec.validations.append(dict(env=env, lifted=obs.to_jsonable(dict(sample=[v for v in cs]), env)))
+                validated = True
+    return rec.result()
 
 
 def pf_slp_transport(D, T=3, reverse=False):
@@ -127,6 +207,8 @@ def run_case(case_id, tier, seed, kind, **kw):
     if kind == 'robust':
         from . import c03
         return c03.run_robust(rec, seed, **kw)
+    if kind == 'costs':
+        return run_costs(rec, seed, **kw)
     return run_slp(rec, seed, **kw)
 
 
@@ -245,6 +327,16 @@ def observe(case, kwargs, env, rq):
     if kind == 'robust':
         from . import c03
         return c03.observe_robust(case, kw, env, rq)
+    if kind == 'costs':
+        D = lift.Domain(theta=env)
+        sh = shapes.build_portfolio(D, kw['shape'], **kw['kw'])
+        smp = scenario_prices(D, sh.prices, sh.tg.T, 0, 1)[0]
+        cs = sh.portf.create_cost_samples([dict(smp)], sh.tg)
+        o = dict(sample=[float(v) for v in cs[0]])
+        if rq.get('kind') == 'replay':
+            sh2 = shapes.build_portfolio(D, kw['shape'], **kw['kw'])
+            o['c'] = [float(v) for v in sh2.portf.setup_optim_problem(smp, sh2.tg).c]
+        return o
     D = lift.Domain(theta=env)
     sh, op_base, scen_ops, slp = scenario(D, kw['shape'], kw['kw'], kw['boundary'], kw['S'])
     o = dict(slp=obs.problem_obs(slp))
@@ -318,6 +410,12 @@ def judge(case, kwargs, cand, ans):
         from . import c03
         return c03.judge_robust(case, kwargs, cand, ans)
     o = ans['obs']
+    if kwargs.get('kind') == 'costs':
+        a, b = o['sample'], o['c']
+        if len(a) != len(b):
+            return True, 'cost sample has %d entries, the cost vector of the scenario problem %d' % (len(a), len(b))
+        bad = [(i, a[i], b[i]) for i in range(len(a)) if abs(a[i] - b[i]) > 1e-7 * max(1.0, abs(a[i]), abs(b[i]))]
+        return (True, 'cost sample differs from the cost vector of the problem set up with the same prices: %s' % bad[:3]) if bad else (False, 'identical on the unshimmed code')
     if info.get('kind') in ('blocks', 'present'):
         return True, 'SLP variable blocks do not correspond to present / per-scenario future variables'
     bad, text = embed_lp.judge_values(o.get('v_slp'), o.get('s_slp'), o.get('v_two_stage'), o.get('s_two_stage'), '==',
